@@ -67,15 +67,24 @@ def run(it):
 
 
 res = {}
+outp = os.path.join(here, 'selftest', 'sweep_results.json')
+head = subprocess.run(['git', '-C', '/repo', 'rev-parse', '--short', 'HEAD'], capture_output=True, text=True).stdout.strip()
+
+
+def dump():
+    allres = json.load(open(outp)).get('results', {}) if os.path.exists(outp) else {}
+    allres.update(res)
+    allres = {k: v for k, v in allres.items() if os.path.exists(os.path.join(here, k))}
+    json.dump({'repo_head_of_last_run': head, 'results': allres}, open(outp + '.tmp', 'w'), indent=1, sort_keys=True)
+    os.replace(outp + '.tmp', outp)
+
+
 with cf.ThreadPoolExecutor(jobs) as ex:
     for path, r in ex.map(run, items):
         res[path] = r
         print(path, r.get('ok'), r.get('violations'), r.get('seconds'), flush=True)
-outp = os.path.join(here, 'selftest', 'sweep_results.json')
-allres = json.load(open(outp)).get('results', {}) if os.path.exists(outp) else {}
-allres.update(res)
-allres = {k: v for k, v in allres.items() if os.path.exists(os.path.join(here, k))}
-head = subprocess.run(['git', '-C', '/repo', 'rev-parse', '--short', 'HEAD'], capture_output=True, text=True).stdout.strip()
-json.dump({'repo_head_of_last_run': head, 'results': allres}, open(outp, 'w'), indent=1, sort_keys=True)
+        if len(res) % 10 == 0:
+            dump()          # incrementally: a sweep that is cut short keeps what it has
+dump()
 bad = [p for p, r in res.items() if r.get('applies') and not r['ok']]
 print('patches: %d, not applying: %d, unexpected outcome: %s' % (len(res), sum(1 for r in res.values() if not r['applies']), bad))
